@@ -60,27 +60,6 @@ theorem square_only (A : List Nat) (m n : Nat) (b : List Nat) (h : m ≠ n) :
     addDiagonalGuard (A ++ [m, n]) b = .error .notSquare := by
   simp [solveGuard, invQuadGuard, iqlGuard, addDiagonalGuard, split2_append, h]
 
-/-- The base `solve` guard is never too strict: whatever torch accepts passes it. -/
-theorem solveGuard_complete (A : List Nat) (m n : Nat) (b s : List Nat)
-    (h : solveShape? (A ++ [m, n]) b = some s) : solveGuard (A ++ [m, n]) b = .ok () := by
-  by_cases hmn : m = n
-  · subst hmn
-    simp only [solveShape?, split2_append, if_true] at h
-    rcases shape_cases b with rfl | ⟨p, rfl⟩ | ⟨B, k, p, rfl⟩
-    · simp [torch_mm_scalar] at h
-    · rw [torch_mm_vec] at h
-      by_cases hp : m = p
-      · subst hp; simp [solveGuard, split2_append]
-      · simp [hp] at h
-    · simp [solveGuard, split2_append]
-  · simp [solveShape?, split2_append, hmn] at h
-
-/-- …but it is incomplete (the rest is left to the class's `_solve`): a 4×4 operator and a 3×2
-right-hand side pass the guard although `A⁻¹ R` does not exist.  (KroneckerProduct `solve`
-then returns a 4×2 result for such input — see known findings.) -/
-theorem solveGuard_incomplete_counterexample :
-    solveGuard [4, 4] [3, 2] = .ok () ∧ solveShape? [4, 4] [3, 2] = none := by decide
-
 /-- `inv_quad_logdet`'s stricter guard only lets torch-valid operands through. -/
 theorem iqlGuard_sound (A : List Nat) (n : Nat) (B : List Nat) (k p : Nat)
     (h : iqlGuard (A ++ [n, n]) (B ++ [k, p]) = .ok ()) :
@@ -103,7 +82,10 @@ theorem iqlGuard_sound (A : List Nat) (n : Nat) (B : List Nat) (k p : Nat)
       subst hAB; subst hnk
       simp [solveShape?, split2_append, torch_mm_mat, broadcast_self]
 
-/-! ### Overrides that bypass the base guard -/
+/-! ### The matmul overrides: guard + shortcut.
+`diagMatmul` / `identityMatmul` are the shortcuts the overrides compute *after* the guard; the counterexamples
+show what the shortcut alone would accept (the defects D23 / D24 fixed by the guard), the `…Guarded_iff_torch`
+theorems are the property for the code as it is. -/
 
 /-- D23: Diag / ConstantDiag `matmul` multiplies elementwise: a 3×3 diagonal operator times a 1×2
 tensor is accepted (result 3×2) although torch rejects it; likewise a length-1 vector. -/
@@ -160,8 +142,8 @@ theorem identityMatmul_partial (A B : List Nat) (n p : Nat) (s : List Nat) :
     simp only [ne_eq, hAB, not_false_eq_true, if_true]
     cases broadcastShapes? A B <;> simp
 
-/-- Zero `matmul` forgets its own batch shape: a (2,3,3) zero operator times a 3×2 tensor gives 3×2
-(torch: 2×3×2), and a batch mismatch (2 vs 3) is accepted. -/
+/-- regression counterexample for the pre-fix Zero `matmul` (it forgot its own batch shape); today's Zero `matmul`
+returns the base guard's shape (`matmulVerdict .zero`), covered by `matmulBroadcastShape_iff_torch`. -/
 theorem zeroMatmul_counterexample :
     zeroMatmul [2, 3, 3] [3, 2] = .ok [3, 2] ∧ torchMatmulShape? [2, 3, 3] [3, 2] = some [2, 3, 2] ∧
     zeroMatmul [2, 3, 3] [3, 3, 2] = .ok [3, 3, 2] ∧ torchMatmulShape? [2, 3, 3] [3, 3, 2] = none := by decide
@@ -185,6 +167,57 @@ theorem zeroMatmul_partial (m n : Nat) (b s : List Nat) :
     · subst h; simp [zeroMatmul, hs, broadcast_nil_left]
     · simp [zeroMatmul, hs, h]
 
+/-- **Diag / ConstantDiag / KroneckerProductDiag `matmul(Tensor)` accepts exactly what torch accepts, with torch's
+shape** (guard, then elementwise shortcut) — all batch ranks, all operand ranks. -/
+theorem diagMatmulGuarded_iff_torch (A : List Nat) (n : Nat) (b s : List Nat) :
+    diagMatmulGuarded A n b = .ok s ↔ torchMatmulShape? (A ++ [n, n]) b = some s := by
+  simp only [diagMatmulGuarded]
+  cases hg : matmulBroadcastShape (A ++ [n, n]) b with
+  | error e =>
+    have hn := (matmulBroadcastShape_error_iff_torch_none A n n b).mp ⟨e, hg⟩
+    simp [hn]
+  | ok t =>
+    have ht := (matmulBroadcastShape_iff_torch A n n b t).mp hg
+    have hd := diagMatmul_complete A n b t ht
+    simp [hd, ht]
+
+/-- the Identity shortcut returns torch's shape on everything torch accepts. -/
+theorem identityMatmul_complete (A : List Nat) (n : Nat) (b s : List Nat)
+    (h : torchMatmulShape? (A ++ [n, n]) b = some s) : identityMatmul A n b = .ok s := by
+  rcases shape_cases b with rfl | ⟨p, rfl⟩ | ⟨B, k, p, rfl⟩
+  · simp [torch_mm_scalar] at h
+  · rw [torch_mm_vec] at h
+    by_cases hp : n = p
+    · subst hp
+      simp at h
+      subst h
+      by_cases hA : A = []
+      · subst hA; simp [identityMatmul]
+      · simp [identityMatmul, hA, broadcast_nil_left]
+    · simp [hp] at h
+  · by_cases hk : n = k
+    · subst hk; exact (identityMatmul_partial A B n p s).mpr h
+    · rw [torch_mm_mat] at h; simp [hk] at h
+
+/-- **Identity `matmul` / `solve` accept exactly what torch accepts, with torch's shape.** -/
+theorem identityMatmulGuarded_iff_torch (A : List Nat) (n : Nat) (b s : List Nat) :
+    identityMatmulGuarded A n b = .ok s ↔ torchMatmulShape? (A ++ [n, n]) b = some s := by
+  simp only [identityMatmulGuarded]
+  cases hg : matmulBroadcastShape (A ++ [n, n]) b with
+  | error e =>
+    have hn := (matmulBroadcastShape_error_iff_torch_none A n n b).mp ⟨e, hg⟩
+    simp [hn]
+  | ok t =>
+    have ht := (matmulBroadcastShape_iff_torch A n n b t).mp hg
+    have hd := identityMatmul_complete A n b t ht
+    simp [hd, ht]
+
+/-- int and tensor indices are accepted by `__getitem__` exactly when every entry is a valid torch index. -/
+theorem tensorIndexGuard_iff (size : Nat) (l : List Int) :
+    tensorIndexGuard size l = .ok () ↔ ∀ i ∈ l, indexValid size i = true := by
+  simp only [tensorIndexGuard]
+  split <;> simp_all
+
 /-! ### Elementwise operations, expand, cat -/
 
 /-- base `__add__(Tensor)` accepts only what torch broadcasting accepts (it additionally refuses
@@ -198,17 +231,12 @@ theorem addTensorGuard_sound (a b s : List Nat) (h : addTensorGuard a b = .ok s)
     | none => simp [hb] at h
     | some t => simp [hb] at h; rw [h]
 
-/-- `expand` checks only the two matrix sizes: a batch-2 operator "expanded" to a plain 3×3 passes
-the base guard (torch refuses) — the class's `_expand_batch` decides what happens. -/
-theorem expandGuard_ignores_batch_counterexample :
-    expandGuard [2, 3, 3] [3, 3] = .ok [] ∧ torchExpand? [2, 3, 3] [3, 3] = none := by decide
-
 /-- The base `expand` guard raises whenever fewer than two sizes are given or the last two are
 neither the matrix shape nor `(-1, -1)`. -/
-theorem expandGuard_matrix_sizes (A : List Nat) (m n : Nat) (S : List Int) (r c : Int) (batch : List Int)
-    (h : expandGuard (A ++ [m, n]) (S ++ [r, c]) = .ok batch) :
+theorem expandMatrixGuard_sizes (A : List Nat) (m n : Nat) (S : List Int) (r c : Int) (batch : List Int)
+    (h : expandMatrixGuard (A ++ [m, n]) (S ++ [r, c]) = .ok batch) :
     batch = S ∧ ((r = m ∧ c = n) ∨ (r = -1 ∧ c = -1)) := by
-  simp only [expandGuard, split2_append, List.reverse_append, List.reverse_cons, List.reverse_nil,
+  simp only [expandMatrixGuard, split2_append, List.reverse_append, List.reverse_cons, List.reverse_nil,
     List.nil_append, List.cons_append, List.reverse_reverse] at h
   split at h
   · rename_i hc; simp at h; exact ⟨h.symm, hc⟩
@@ -256,9 +284,8 @@ theorem rangeCheck_value (size : Nat) (i : Int) (k : Nat) (h : rangeCheck size i
     · simp at h; omega
     · cases h
 
-/-- With `settings.debug` off nothing checks an int in a matrix position: it is rewritten to
-`slice(i, i+1)`, which for every out-of-range `i` selects **zero** rows — no exception, an empty
-result whose size-0 axis is not squeezed (finding: int index ≥ size / < −size, debug off). -/
+/-- Why the unconditional `intIndexGuard` is load-bearing: the later rewrite of an int to `slice(i, i+1)`
+selects **zero** rows for every out-of-range `i` — no exception, an empty result. -/
 theorem intAsSlice_out_of_range_selects_nothing (size : Nat) (i : Int) (h : indexValid size i = false) :
     intAsSliceLen size i = 0 := by
   simp only [indexValid, Bool.and_eq_false_iff, decide_eq_false_iff_not] at h
@@ -302,23 +329,23 @@ theorem fmodIndex_in_range (size : Nat) (i : Nat) (h : i < size) : fmodIndex siz
 theorem fmodIndex_wraps_counterexample : fmodIndex 2 2 = 0 ∧ indexValid 2 2 = false ∧
     fmodIndex 2 (-3) = -1 := by decide
 
-/-! ### The guards as they are after the proposed fixes (notes/C19_fix_4.diff, C19_fix_5.diff) -/
+/-! ### `solve` and `expand` -/
 
-/-- fixed base `solve`: accepts exactly the right-hand sides for which `A⁻¹R` exists (square ∧ torch-valid
-product) — the full property, which `solveGuard_incomplete_counterexample` refutes for today's code. -/
-theorem solveGuardFixed_iff (A : List Nat) (m n : Nat) (b s : List Nat) :
-    solveGuardFixed (A ++ [m, n]) b = .ok s ↔ solveShape? (A ++ [m, n]) b = some s :=
+/-- base `solve` accepts exactly the right-hand sides for which `A⁻¹R` exists (square ∧ torch-valid
+product), with the result's shape — all batch ranks, all operand ranks. -/
+theorem solveGuard_iff (A : List Nat) (m n : Nat) (b s : List Nat) :
+    solveGuard (A ++ [m, n]) b = .ok s ↔ solveShape? (A ++ [m, n]) b = some s :=
   invQuadGuard_iff A m n b s
 
-/-- fixed `expand`: for the two admissible spellings of the matrix sizes, the guard accepts exactly the
+/-- base `expand`: for the two admissible spellings of the matrix sizes, the guard accepts exactly the
 size lists torch's `expand` accepts for the dense tensor (any batch rank, `-1` included). -/
-theorem expandGuardFixed_iff_torch (A : List Nat) (m n : Nat) (S : List Int) (r c : Int)
+theorem expandGuard_iff_torch (A : List Nat) (m n : Nat) (S : List Int) (r c : Int)
     (h : (r = m ∧ c = n) ∨ (r = -1 ∧ c = -1)) :
-    expandGuardFixed (A ++ [m, n]) (S ++ [r, c]) = .ok S ↔
+    expandGuard (A ++ [m, n]) (S ++ [r, c]) = .ok S ↔
       (torchExpand? (A ++ [m, n]) (S ++ [r, c])).isSome = true := by
-  have hg : expandGuard (A ++ [m, n]) (S ++ [r, c]) = .ok S := by
-    simp [expandGuard, split2_append, h]
-  simp only [expandGuardFixed, split2_append, hg, torchExpand?, Option.isSome_map, List.reverse_append,
+  have hg : expandMatrixGuard (A ++ [m, n]) (S ++ [r, c]) = .ok S := by
+    simp [expandMatrixGuard, split2_append, h]
+  simp only [expandGuard, split2_append, hg, torchExpand?, Option.isSome_map, List.reverse_append,
     List.reverse_cons, List.reverse_nil, List.nil_append, List.cons_append]
   rcases h with ⟨rfl, rfl⟩ | ⟨rfl, rfl⟩
   · have hn : ¬ ((n : Int) = -1) := by omega
@@ -343,9 +370,9 @@ theorem every_matmul_definer_is_modelled :
 open LinOp.Generated.C19 in
 /-- The overrides of guarded public methods are exactly the known ones (same classes, same methods),
 each with the known "reaches the base guard" status (`guarded = true` iff the method body calls
-`_matmul_broadcast_shape` or `super().<method>`) or the status it gets from the proposed fix patches:
-removing a guard or adding an override changes the table and breaks this obligation. -/
-theorem overrides_are_the_known_ones : overridesOk overrides = true := by decide +kernel
+`_matmul_broadcast_shape` or `super().<method>`): removing a guard or adding an override changes the
+table and breaks this obligation. -/
+theorem overrides_are_the_known_ones : overrides = knownOverrides := by decide +kernel
 
 open LinOp.Generated.C19 in
 /-- The base-class methods still contain their guards. -/
